@@ -14,7 +14,7 @@ CLANG_FLAGS = ['-std=c++17', '-O1', '-g', '-fno-inline', '-fno-exceptions', '-fn
                '-I' + os.path.join(VERIF, 'cfg'), '-I' + os.path.join(REPO, 'src'), '-I' + os.path.join(VERIF, 'vp'),
                '-I' + os.path.join(VERIF, 'harness')]
 NATIVE_FLAGS = ['-std=c++17', '-O0', '-g', '-fno-access-control', '-fsanitize=address,undefined',
-                '-fno-sanitize-recover=undefined', '-w', '-DHAVE_CONFIG_H', '-DVP_NATIVE',
+                '-fno-sanitize-recover=undefined', '-fno-sanitize=vptr', '-w', '-DHAVE_CONFIG_H', '-DVP_NATIVE',
                 '-I' + os.path.join(VERIF, 'cfg'), '-I' + os.path.join(REPO, 'src'), '-I' + os.path.join(VERIF, 'vp'),
                 '-I' + os.path.join(VERIF, 'harness')]
 CBMC_BASE = ['--function', 'vp_entry', '--unwinding-assertions', '--no-malloc-may-fail', '--drop-unused-functions',
@@ -76,7 +76,7 @@ class Job:
 
     def __init__(self, prop, name, src, defs=None, link=(), models=(), opt='inline', unwind=2, unwindset=None,
                  solver='minisat', timeout=300, shape='K', extra=(), bounds='', nochk=False, objbits=None,
-                 depth=None, stubs=None, skip_ctors=(), noop_stubs=()):
+                 depth=None, stubs=None, skip_ctors=(), noop_stubs=(), rtti=False, noop_containing=()):
         self.prop, self.name, self.src = prop, name, src
         self.defs = dict(defs or {})
         self.link = list(link)
@@ -94,6 +94,8 @@ class Job:
         # functions of the code under test replaced by an empty body in the SYMBOLIC build only (stated per harness as outside
         # the claim; the harness must make their native effects unobservable)
         self.noop_stubs = list(noop_stubs)
+        self.rtti = rtti
+        self.noop_containing = list(noop_containing)
         self.stubs += self.noop_stubs
         self.dir = os.path.join(BUILD, prop, name)
         self.log = []
@@ -122,14 +124,15 @@ class Job:
         t0 = time.time()
         bcs = []
         hb = os.path.join(self.dir, 'h.bc')
-        rc, out, err, _ = run(['clang++-14'] + CLANG_FLAGS + defs_flags(self.defs) +
+        cf = [f for f in CLANG_FLAGS if not (self.rtti and f == '-fno-rtti')]
+        rc, out, err, _ = run(['clang++-14'] + cf + defs_flags(self.defs) +
                               ['-c', '-emit-llvm', self.harness_path(), '-o', hb])
         if rc != 0:
             raise PipelineError('clang failed on harness %s:\n%s' % (self.src, err[-3000:]))
         bcs.append(hb)
         for i, l in enumerate(self.link):
             lb = os.path.join(self.dir, 'l%d.bc' % i)
-            rc, out, err, _ = run(['clang++-14'] + CLANG_FLAGS + defs_flags(self.defs) +
+            rc, out, err, _ = run(['clang++-14'] + cf + defs_flags(self.defs) +
                                   ['-c', '-emit-llvm', os.path.join(REPO, 'src', l), '-o', lb])
             if rc != 0:
                 raise PipelineError('clang failed on %s:\n%s' % (l, err[-3000:]))
@@ -147,6 +150,8 @@ class Job:
             cmd = [os.path.join(VERIF, 'tool', 'll2c'), '--prep', allbc, '-o', prep]
             for st in self.stubs:
                 cmd += ['--stub', st]
+            for st in self.noop_containing:
+                cmd += ['--stub-containing', st]
             rc, out, err, _ = run(cmd)
             if rc != 0:
                 raise PipelineError('ll2c --prep failed: ' + err[-2000:])
@@ -175,10 +180,11 @@ class Job:
     def model_files(self):
         base = ['rt_cbmc', 'cxxabi', 'vecgrow'] + self.models
         files = [os.path.join(VERIF, 'models', m + '.c') for m in dict.fromkeys(base)]
-        if self.noop_stubs:
+        noops = list(self.noop_stubs) + [n for n in self.stubbed if n not in self.stubs]
+        if noops:
             p = os.path.join(self.dir, 'noop_stubs.c')
             with open(p, 'w') as f:
-                for n in self.noop_stubs:
+                for n in dict.fromkeys(noops):
                     f.write('void vpx_%s(void* a) { (void)a; }\n' % n)
             files.append(p)
         return files
